@@ -14,7 +14,7 @@ def check(tier, seed):
     cases = []
     jobs, idx = [], []
     for s in fam.SETS:
-        for i, xi in enumerate(fam.seeds(rng, n)):
+        for i, xi in enumerate(fam.boundary_seeds(s, 2) + fam.seeds(rng, n)):
             jobs.append(('keygen', s, xi)); idx.append((s, xi, i))
     refs = fam.ref_map(jobs)
     for (s, xi, i), (pk, sk) in zip(idx, refs):
@@ -22,6 +22,13 @@ def check(tier, seed):
         cases.append({'line': f"keygen_rng {s} ok:{xi.hex()}+ok:{'ee' * 32}", 'tag': 'try_keygen_with_rng == seeded(draw)', 'want': f"ok {pk.hex()} {sk.hex()} calls=tryfill32", 'model': i == 2})
         if i < 2:
             cases.append({'line': f"keygen_s {s} {xi.hex()}", 'tag': 'struct fields (model correspondence)', 'want': None, 'model': True})
+    # hook level: the samplers of Algorithm 6 against the reference on fresh seeds
+    for t in range(40 if tier == 'thorough' else 6):
+        r34 = bytes(rng.randrange(256) for _ in range(34))
+        cases.append({'line': f"rej_ntt_poly 0 {r34.hex()}", 'tag': 'rej_ntt_poly', 'want': ",".join(str(x) for x in R.rej_ntt_poly(r34)), 'model': t == 0})
+        for eta in (2, 4):
+            r66 = bytes(rng.randrange(256) for _ in range(66))
+            cases.append({'line': f"rej_bounded_poly 0 {eta} {r66.hex()}", 'tag': f'rej_bounded_poly eta={eta}', 'want': ",".join(str(x) for x in R.rej_bounded_poly(eta, r66)), 'model': t == 0})
     core.run_and_judge(rep, cases, model_every=0)
     return core.finish(rep, b, 'proof', {
         'rule': 'one case per (set, seed, entry point); seeds include all-00, all-FF and random; non-trivial = distinct seed whose output was compared byte-for-byte with the Python transcription of Algorithm 6',
